@@ -3,8 +3,8 @@
 Three exhaustive enumerations (mode C), each its own family of worker tasks:
 
 (a) `parse:*`   every string of length <= 5 (quick) / <= 6 (thorough) over the 11-symbol alphabet
-    {a B 1 0 _ - v : . space /} — plus every string of length <= 4 over that alphabet extended with
-    "\\n" — through `parse_env_id`, against a reference parser written without `re` from the
+    {a B 1 0 _ - v : . space /} — plus every string of length <= 5 that contains "\\n" over that alphabet extended with
+    "\\n" (5 is the shortest length at which a newline can trail a well-formed id) — through `parse_env_id`, against a reference parser written without `re` from the
     documented format '<env-name>-v<version>': well-formed iff the string can be split at the LAST
     "-v" into a non-empty name over word characters, ':', '.', '-' and a non-empty run of ASCII digits
     reaching the end.  Accepted ids must give (name, int(digits)); rejected ones must raise ValueError
@@ -219,7 +219,8 @@ def parse_misc_task(model: str) -> Dict[str, Any]:
     _run_ids(acc, [""])
     n0 = acc.states
     alpha_nl = ALPHABET + "\n"
-    _run_ids(acc, ("".join(t) for n in range(1, 5) for t in itertools.product(alpha_nl, repeat=n) if "\n" in t))
+    # length 5 is the shortest at which a trailing newline can follow a well-formed id ("a-v1\n")
+    _run_ids(acc, ("".join(t) for n in range(1, 6) for t in itertools.product(alpha_nl, repeat=n) if "\n" in t))
     acc.count("newline_ids", acc.states - n0)
     # (name, N) -> id -> (name, N)
     name_syms = "aB10_-v:."
@@ -248,7 +249,11 @@ def parse_misc_task(model: str) -> Dict[str, Any]:
                     if N >= 2**63:
                         acc.count("large_versions")
     acc.validated = acc.states
-    acc.samples.append({"id": registration.get_env_id("a-v1", 10**30), "parsed": list(registration.parse_env_id("a-v1-v" + str(10**30)))})
+    for s in ("a-v1-v" + str(10**30), "a-v1\n", "a-v01"):
+        try:
+            acc.samples.append({"id": s, "parsed": list(registration.parse_env_id(s))})
+        except ValueError as e:
+            acc.samples.append({"id": s, "rejected": str(e)[:60]})
     # reported only
     obs = {}
     for s in NON_ASCII:
@@ -715,7 +720,7 @@ def main(tier: str, seed: int) -> int:
     rep = Reporter(PID, tier, seed)
     rep.assumptions += [
         "id strings: all strings of length <= 5 (quick) / 6 (thorough) over {a,B,1,0,_,-,v,:,.,space,/}, all strings "
-        "of length <= 4 containing a newline over that alphabet + newline, names of length <= 3 x 11 versions up to "
+        "of length <= 5 containing a newline over that alphabet + newline, names of length <= 3 x 11 versions up to "
         "10**100; non-ASCII ids (unicode digits/letters are accepted by \\d/\\w) are reported, not judged",
         "rejected/refused means ValueError, as the docstrings of parse_env_id and _check_registration_is_allowed say",
         "registry histories: every sequence of <= 3 (quick) / 4 (thorough) of 9 operations from the empty and from the "
